@@ -80,9 +80,9 @@ class ProgGen:
 		"""Generic functions and a generic (linked) class whose type variable occurs NESTED in an optional parameter
 		(`list[T] | None`, `dict[str, T] | None`, `'N[T] | None'`) next to a parameter that pins it (`d: T`), in either order, called
 		with None and with a value for the optional one: T has to come from the pinning parameter wherever it stands.
-		Returns (definitions, body lines of the entry function).
-		A parameter that IS `T | None` and precedes the pinning one, given None, binds T to None (known finding
-		optional-template-none-argument, proposed/C03-template-path-position.md): generated at a low rate, its result unused."""
+		Returns (definitions, body lines of the entry function). T at a non-first argument position of the parameter's type and a
+		parameter that IS `T | None` (the former findings template-nonfirst-type-argument / optional-template-none-argument, repaired in
+		68f934e) are ordinary forms here, their results are used."""
 		rng = self.rng
 		out: list[str] = []
 		body: list[str] = []
@@ -124,10 +124,13 @@ class ProgGen:
 		# generic functions: (annotation of the optional parameter, value for it given an element, returned expression, T at a non-first
 		# argument position of the parameter's type)
 		hashable = {'int', 'str', 'float'}
-		forms = [('list[T] | None', '[{e}]', 'xs[0] if xs else d', False), ('list[list[T]] | None', '[[{e}], []]', 'xs[0][0] if xs else d', False),
+		forms = [('list[T] | None', '[{e}]', 'xs[0] if xs else d', False), ('list[list[T]] | None', '[[{e}]]', 'xs[0][0] if xs else d', False),
 			('dict[T, int] | None', '{{{e}: 1}}', 'd', False), ('tuple[T, int] | None', '({e}, 1)', 'xs[0] if xs else d', False),
 			('dict[str, T] | None', '{{"k": {e}}}', 'xs["k"] if xs is not None and "k" in xs else d', True),
-			('tuple[int, T] | None', '(1, {e})', 'xs[1] if xs else d', True)]
+			('tuple[int, T] | None', '(1, {e})', 'xs[1] if xs else d', True),
+			('dict[str, T]', '{{"k": {e}}}', 'xs["k"] if "k" in xs else d', True), ('tuple[int, T]', '(1, {e})', 'xs[1]', True),
+			('list[dict[str, T]]', '[{{"k": {e}}}]', 'xs[0]["k"]', True), ('None | list[T]', '[{e}]', 'xs[0] if xs else d', False),
+			('None | dict[int, T]', '{{1: {e}}}', 'xs[1] if xs is not None and 1 in xs else d', True)]
 		for ann, mk, ret, nonfirst in rng.sample(forms, rng.randint(1, 2)):
 			fn = self.fresh('pick')
 			first = rng.random() < 0.6
@@ -136,18 +139,17 @@ class ProgGen:
 			out += ['', '', f'def {fn}({ps}) -> {rt}:', f"\treturn {wrap.format(ret)}"]
 			for ty in rng.sample([t for t in elems if t in hashable or not ann.startswith('dict[T')], 2):
 				e1, e2 = elems[ty][0], elems[ty][1]
-				r1 = decl(f'{fn}({args("None", e1, first)})')
-				if ty == base:
-					decl(f'{r1}.{self.base_attr}' if rt == 'T' else f'{r1}[0].{self.base_attr}')
-				elif rt == 'T' and ty in ('int', 'float'):
-					decl(f'{r1} + 1')
-				if not (nonfirst and first):
-					decl(f'{fn}({args(mk.format(e=e2), e1, first)})')
-				elif rng.random() < 0.2:
-					# known finding template-nonfirst-type-argument: T at a non-first argument position of the parameter's type is
-					# bound to the FIRST argument of the value's type (proposed/C03-template-path-position.md); unused result
-					decl(f'{fn}({args(mk.format(e=e2), e1, first)})')
-					self.count('template-nonfirst-type-argument')
+				if 'None' in ann:
+					r1 = decl(f'{fn}({args("None", e1, first)})')
+					if ty == base:
+						decl(f'{r1}.{self.base_attr}' if rt == 'T' else f'{r1}[0].{self.base_attr}')
+					elif rt == 'T' and ty in ('int', 'float'):
+						decl(f'{r1} + 1')
+				r2 = decl(f'{fn}({args(mk.format(e=e2), e1, first)})')
+				if rt == 'T' and ty in ('int', 'float'):
+					decl(f'{r2} * 2')
+				elif rt == 'T' and ty == 'str':
+					decl(f'{r2}.upper()')
 				self.count(f"generic-func:{ann}:{'opt-first' if first else 'pin-first'}")
 		# a parameter that is `T | None` itself
 		if rng.random() < 0.5:
@@ -158,12 +160,184 @@ class ProgGen:
 			ty = rng.choice(['int', 'str', 'float'])
 			e1, e2 = elems[ty][0], elems[ty][1]
 			decl(f'{fn}({args(e2, e1, first)})')
-			if not first:
-				decl(f'{fn}({args("None", e1, first)})')
-			elif rng.random() < 0.25:
-				decl(f'{fn}({args("None", e1, first)})')   # known finding: the result is not used again
-				self.count('optional-template-none-argument')
+			w1 = decl(f'{fn}({args("None", e1, first)})')
+			decl(f'{w1}[0]')
+			decl(f'[z for z in {w1}]')
 			self.count('generic-func:T | None')
+		return out, body
+
+	def callback_block(self) -> tuple[list[str], list[str]]:
+		"""Lambdas whose parameters are typed from the context and USED in the lambda body (the recorder sees their run-time types):
+		passed to a function / closure / method / constructor whose parameter is a callback — optional or not, None on either side of the
+		Union, with or without a default —, returned from a function declared to return a Callable, and called on the spot.
+		An annotated assignment `f: Callable[…] = lambda …` whose body uses a parameter sends the inference into an endless recursion
+		(known finding annotated-lambda-parameter, proposed/C03-annotated-lambda-parameter.md): low rate, result unused.
+		Returns (definitions, body lines of the entry function)."""
+		rng = self.rng
+		out: list[str] = []
+		body: list[str] = []
+		types = ['int', 'str', 'float', 'bool']
+		lit = {'int': '3', 'str': '"q"', 'float': '1.5', 'bool': 'True'}
+		default = {'int': '0', 'str': '""', 'float': '0.0', 'bool': 'False'}
+		use = {'int': [('{p} + 1', 'int'), ('{p} * 2.5', 'float'), ('str({p})', 'str'), ('{p} > 1', 'bool')],
+			'str': [('{p}.upper()', 'str'), ('len({p})', 'int'), ('{p} + "x"', 'str')],
+			'float': [('{p} * 2', 'float'), ('{p} > 0.5', 'bool'), ('{p} + 1', 'float')],
+			'bool': [('not {p}', 'bool'), ('1 if {p} else 0', 'int')]}
+		test = {'int': '{p} > 0', 'str': '{p} == "q"', 'float': '{p} > 0.5', 'bool': '{p}'}
+
+		def decl(expr: str) -> str:
+			v = self.fresh('v')
+			body.append(f'\t{v} = {expr}')
+			return v
+
+		def signature() -> tuple[list[str], str, str]:
+			pts = [rng.choice(types) for _ in range(rng.randint(1, 3))]
+			u, ret = rng.choice(use[pts[0]])
+			return pts, u, ret
+
+		def lam(pts: list[str], u: str) -> str:
+			names = [self.fresh('u') for _ in pts]
+			e = u.format(p=names[0])
+			for nm, t in zip(names[1:], pts[1:]):
+				e = f'({e}) if {test[t].format(p=nm)} else ({e})'
+			return f"lambda {', '.join(names)}: {e}"
+
+		def callable_of(pts: list[str], ret: str) -> str:
+			return f"Callable[[{', '.join(pts)}], {ret}]"
+
+		def optional(c: str) -> tuple[str, bool]:
+			"""(annotation, has a default)"""
+			ann = f'{c} | None' if rng.random() < 0.6 else f'None | {c}'
+			return ann, rng.random() < 0.5
+
+		def callee(ind: str, name: str, self_prm: bool, pts: list[str], ret: str, opt: bool) -> tuple[list[str], bool]:
+			"""a function that calls its callback parameter; returns (lines, the callback comes first)"""
+			c = callable_of(pts, ret)
+			args = ', '.join(lit[t] for t in pts)
+			if opt:
+				ann, dflt = optional(c)
+				first = not dflt and rng.random() < 0.4
+				cb = f'cb: {ann}' + (' = None' if dflt else '')
+			else:
+				cb, first = f'cb: {c}', rng.random() < 0.4
+			prms = [cb, 'n: int'] if first else ['n: int', cb]
+			head = f"{ind}def {name}({', '.join((['self'] if self_prm else []) + prms)}) -> {ret}:"
+			if opt:
+				return [head, f'{ind}\tif cb:', f'{ind}\t\treturn cb({args})', '', f'{ind}\treturn {default[ret]}'], first
+			return [head, f'{ind}\treturn cb({args})'], first
+
+		def call(fn: str, first: bool, lm: str) -> str:
+			return f'{fn}({lm}, 1)' if first else f'{fn}(2, {lm})'
+
+		kinds = rng.sample(['func-opt', 'func-opt', 'func', 'method-opt', 'ctor-opt', 'closure-opt', 'return', 'immediate', 'anno'], rng.randint(2, 4))
+		for kind in kinds:
+			pts, u, ret = signature()
+			if kind in ('func-opt', 'func'):
+				fn = self.fresh('run')
+				lines, first = callee('', fn, False, pts, ret, kind == 'func-opt')
+				out += ['', ''] + lines
+				r = decl(call(fn, first, lam(pts, u)))
+				decl(f'[{r}, {r}]')
+				if kind == 'func-opt' and not first:
+					decl(f'{fn}(3, None)')
+			elif kind == 'method-opt':
+				cls, m = self.fresh('Cb'), self.fresh('apply')
+				lines, first = callee('\t', m, True, pts, ret, True)
+				out += ['', '', f'class {cls}:', '\tk: int', '', '\tdef __init__(self, k: int) -> None:', '\t\tself.k = k', ''] + lines
+				o = decl(f'{cls}(1)')
+				decl(call(f'{o}.{m}', first, lam(pts, u)))
+			elif kind == 'ctor-opt':
+				cls = self.fresh('Cb')
+				c = callable_of(pts, ret)
+				ann, dflt = optional(c)
+				args = ', '.join(lit[t] for t in pts)
+				out += ['', '', f'class {cls}:', f'\tr: {ret}', '', f"\tdef __init__(self, n: int, cb: {ann}{' = None' if dflt else ''}) -> None:",
+					f'\t\tself.r = {default[ret]}', '\t\tif cb:', f'\t\t\tself.r = cb({args})']
+				o = decl(f'{cls}(1, {lam(pts, u)})')
+				decl(f'{o}.r')
+			elif kind == 'closure-opt':
+				fn = self.fresh('inner')
+				lines, first = callee('\t', fn, False, pts, ret, True)
+				body += lines + ['']
+				decl(call(fn, first, lam(pts, u)))
+			elif kind == 'return':
+				fn = self.fresh('make')
+				out += ['', '', f'def {fn}() -> {callable_of(pts, ret)}:', f'\treturn {lam(pts, u)}']
+				decl(f"{fn}()({', '.join(lit[t] for t in pts)})")
+			elif kind == 'immediate':
+				decl(f"({lam(pts, u)})({', '.join(lit[t] for t in pts)})")
+			elif kind == 'anno':
+				if rng.random() < 0.3:
+					f = self.fresh('f')
+					body.append(f'\t{f}: {callable_of(pts, ret)} = {lam(pts, u)}')   # known finding (the call makes the body run)
+					decl(f"{f}({', '.join(lit[t] for t in pts)})")
+					self.count('annotated-lambda-parameter')
+				continue
+			self.count(f'lambda:{kind}:{len(pts)}')
+		return out, body
+
+	def nullable_block(self, base: str, meth: str) -> tuple[list[str], list[str]]:
+		"""Optionals written with None on either side (`T | None`, `None | T`) and inferred from ternaries with None in either branch,
+		USED as the T they hold: subscript, slice, attribute, method call, iteration, comprehension (tranp unwraps an optional
+		whichever side None stands on; the function is called with values that make every optional non-None, and once with the others).
+		Returns (definitions, body lines of the entry function)."""
+		rng = self.rng
+		fn = self.fresh('nul')
+
+		def opt(t: str) -> str:
+			return f'None | {t}' if rng.random() < 0.55 else f'{t} | None'
+
+		lines: list[str] = []
+
+		def decl(expr: str) -> str:
+			v = self.fresh('v')
+			lines.append(f'\t{v} = {expr}')
+			return v
+
+		def tern(e: str) -> str:
+			return f'None if flag else {e}' if rng.random() < 0.55 else f'{e} if not flag else None'
+
+		head = f"def {fn}(flag: bool, a: int, xs: {opt('list[int]')}, d: {opt('dict[str, float]')}, o: {opt(base)}, t: {opt('tuple[int, str]')}, s: {opt('str')}) -> None:"
+		for _ in range(rng.randint(4, 8)):
+			k = rng.choice(['xs', 'd', 'o', 't', 's', 'tern-list', 'tern-obj', 'tern-dict', 'tern-str', 'tern-tuple'])
+			if k == 'xs':
+				decl(rng.choice(['xs[0]', 'xs[0:1]', 'xs.copy()', '[z + 1 for z in xs]', 'xs.index(1)']))
+				if rng.random() < 0.5:
+					x = self.fresh('x')
+					lines.extend([f'\tfor {x} in xs:', f'\t\t{self.fresh("v")} = {x}'])
+			elif k == 'd':
+				decl(rng.choice(['d["k"]', 'd.get("k")', '[kk for kk in d]', '{kk: vv for kk, vv in d.items()}', 'list(d.keys())']))
+				if rng.random() < 0.5:
+					kk, vv = self.fresh('k'), self.fresh('w')
+					lines.extend([f'\tfor {kk}, {vv} in d.items():', f'\t\t{self.fresh("v")} = {kk}', f'\t\t{self.fresh("v")} = {vv}'])
+			elif k == 'o':
+				decl(rng.choice([f'o.{self.base_attr}', f'o.{meth}(1)', f'[o, o][0].{self.base_attr}']))
+			elif k == 't':
+				decl(rng.choice(['t[0]', 't[1]', 't[1:]', 't[:1]']))
+			elif k == 's':
+				decl(rng.choice(['s.upper()', 's[0]', 's.split("x")', 's.find("y")']))
+			elif k == 'tern-list':
+				w = decl(tern(rng.choice(['[a, 2]', '[a]', '[1.5]'])))
+				decl(rng.choice([f'{w}[0]', f'{w}.copy()', f'[z for z in {w}]']))
+			elif k == 'tern-obj':
+				w = decl(tern(f'{base}(a)'))
+				decl(rng.choice([f'{w}.{self.base_attr}', f'{w}.{meth}(2)']))
+				if rng.random() < 0.5:
+					lines.extend([f'\tif {w} is not None:', f'\t\t{self.fresh("v")} = {w}.{meth}(3)'])
+			elif k == 'tern-dict':
+				w = decl(tern('{"k": a}'))
+				decl(rng.choice([f'{w}["k"]', f'[kk for kk in {w}.keys()]']))
+			elif k == 'tern-str':
+				w = decl(tern('"ab"'))
+				decl(rng.choice([f'{w}.upper()', f'{w}[0]']))
+			elif k == 'tern-tuple':
+				w = decl(tern('(a, "z")'))
+				decl(rng.choice([f'{w}[0]', f'{w}[1]']))
+			self.count(f'nullable:{k}')
+		out = ['', '', head] + lines
+		full = f'[1, 2], {{"k": 0.5}}, {base}(1), (1, "a"), "xy"'
+		body = [f'\t{fn}(False, a, {full})', f'\t{fn}(False, 2, [3], {{"k": 1.5, "j": 2.0}}, {base}(a), (a, s), s + "q")',
+			f'\t{fn}(True, a, None, None, None, None, None)' if rng.random() < 0.3 else f'\t{fn}(False, 0, {full})']
 		return out, body
 
 	def generate(self) -> tuple[str, dict[str, int]]:
@@ -176,6 +350,9 @@ class ProgGen:
 			imports.append('from enum import Enum')
 		if use_generic:
 			imports.append('from typing import Generic, TypeVar')
+		use_callbacks = rng.random() < 0.6 and not self.modelled
+		if use_callbacks:
+			imports.append('from collections.abc import Callable')
 		use_iter = rng.random() < (0.9 if self.modelled else 0.6)
 		if use_iter:
 			imports.append('from collections.abc import Iterator')
@@ -235,6 +412,12 @@ class ProgGen:
 			self.count('generic')
 			gdefs, generic_body = self.generic_block(base)
 			out += gdefs
+		callback_body: list[str] = []
+		if use_callbacks:
+			cdefs, callback_body = self.callback_block()
+			out += cdefs
+		ndefs, nullable_body = self.nullable_block(base, meth) if rng.random() < 0.75 else ([], [])
+		out += ndefs
 		it_cls = itb_cls = None
 		it_ty = rng.choice(['int', 'str', 'float'])
 		if use_iter:
@@ -323,6 +506,7 @@ class ProgGen:
 			decl(f'{g}.data')
 			decl(f'[w for w in {g}.all()]')
 			body += generic_body
+		body += callback_body + nullable_body
 		for c in self.shadow_calls:
 			decl(c)
 		if it_cls and itb_cls:
